@@ -499,6 +499,11 @@ def e2_op_strategies(nparts, ngroups, profile):
         # a rack is re-defined under another pod
         'rebucket': st.tuples(st.just('rebucket'), st.integers(0, 8),
                               st.integers(0, 3)).map(list),
+        # macro: ... after work has been placed, and more work follows
+        'rebucketwork': st.tuples(st.integers(0, 8), st.integers(0, 3),
+                                  ops_app_placeholder)
+        .map(lambda t: ['macro', [['cycle'], ['rebucket', t[0], t[1]],
+                                  ['cycle'], t[2], ['cycle']]]),
         # the definition of a rack is deleted under its servers
         'rmbucket': st.tuples(st.just('rmbucket'),
                               st.integers(0, 8)).map(list),
@@ -632,7 +637,7 @@ E2_WEIGHTS = {
     'state': 1, 'allocs': 1, 'idg': 1, 'rmidg': 1, 'bl': 1, 'blackout': 1,
     'cellev': 1, 'cellrm': 0, 'rmbucket': 0, 'rmbucketrestart': 0,
     'rmbucketcrash': 0, 'badparent': 0, 'badparentcrash': 0, 'rmrestart': 0, 'evburst': 0, 'retrait': 0, 'rebucket': 0,
-    'bounceplace': 0, 'running': 1, 'adv': 2, 'adv_ret': 1, 'tickreboots': 1,
+    'bounceplace': 0, 'rebucketwork': 0, 'running': 1, 'adv': 2, 'adv_ret': 1, 'tickreboots': 1,
     'checkreboot': 1, 'integrity': 1, 'enq': 1, 'proc': 1, 'ev': 3,
     'sched': 3, 'cycle': 6, 'restart': 1,
 }
